@@ -250,6 +250,10 @@ def _compare(  # noqa: C901, PLR0912
         **kwargs,
     ):
         if change.typ == ADD:
+            if change.old is not None:
+                # the path is occupied by an entry we know nothing about
+                # (e.g. a broken symlink), it has to make way for the new one
+                _add_delete(change.old)
             _add_create(change.new)
         elif change.typ == DELETE:
             if not delete:
